@@ -244,6 +244,28 @@ def register(Rg: Registry):
 
 # ===========================================================================
 # sphere / frustum sharing centre and end radius
+# The tolerance constants of the UNCHANGED library, as literals (a change of `eps` in the code must not move the contract with it)
+EPS = z3.RealVal("1/1000000")  # volumetric_object.eps
+RTOL, ATOL = z3.RealVal("1/100000"), z3.RealVal("1/100000000")  # numpy's defaults of np.allclose / np.isclose
+
+
+def outside_tolerance_bands(ra, rb, h2, at_c1=None):
+    """POSE-INDEPENDENT precondition of the exact statement: ra = radius of the sphere = radius of the frustum end it sits on, rb = radius of
+    the other end, h2 = squared distance of the end centres.  Nothing to ask when the frustum does not get thinner away from the sphere
+    (rb >= ra).  Otherwise the unchanged code deliberately treats three narrow bands inexactly, and the exact statement excludes them:
+      * `r2 - r1 >= -eps`: radii closer than eps count as equal (the no-taper formula is used);
+      * `np.allclose(radius, other end's radius)` (|ra - rb| <= atol + rtol rb): the sphere may be matched to the other end; this test is
+        reached only for a sphere on the c2 end (the c1 end is tried first), so it is asked only there (at_c1 = "the sphere sits on c1");
+      * `t > 1 + eps`: the slant line leaves the sphere at parameter tau = 2 ra (ra - rb) / (h2 + (ra - rb)^2); for 1 < tau <= 1 + eps the
+        general formula is used beyond the far rim.
+    No coordinate occurs: whatever the code does differently for the same radii and distances at another place is NOT excused here."""
+    num, den = 2 * ra * (ra - rb), h2 + (ra - rb) * (ra - rb)
+    match_band = ra - rb > ATOL + RTOL * rb
+    if at_c1 is not None:
+        match_band = z3.Or(at_c1, match_band)
+    return z3.Or(rb >= ra, z3.And(ra - rb > EPS, match_band, z3.Not(z3.And(num > den, num <= (1 + EPS) * den))))
+
+
 def _concentric_setup(end, taper=None):
     """sphere centred on the `end` of a frustum of height hh along the unit axis u; taper: None = any radii,
     True = the far end is thinner than the sphere's end (r2 < r1), False = it is not (r2 >= r1)"""
@@ -321,6 +343,16 @@ def _scale_le(t, w):
     return z3.Implies(z3.And(t <= 1, w >= 0), t * w <= w)
 
 
+@_lemma("strictly-larger-factor-strictly-larger-product", 3)
+def _mono_strict(a, b, w):
+    return z3.Implies(z3.And(a < b, w > 0), a * w < b * w)
+
+
+@_lemma("larger-factor-larger-product", 3)
+def _mono(a, b, w):
+    return z3.Implies(z3.And(a <= b, w >= 0), a * w <= b * w)
+
+
 def _cap(r, hh):
     return PI * hh * hh * (3 * r - hh) / 3
 
@@ -370,9 +402,39 @@ def _div_subterms(z):
     return out
 
 
+def _has_numeral(z, q):
+    """does the term contain the rational numeral q?"""
+    stack, seen = [z], set()
+    while stack:
+        x = stack.pop()
+        if x.get_id() in seen:
+            continue
+        seen.add(x.get_id())
+        if z3.is_rational_value(x):
+            if x.eq(q):
+                return True
+            continue
+        if z3.is_quantifier(x):
+            stack.append(x.body())
+        elif z3.is_app(x):
+            stack.extend(x.children())
+    return False
+
+
 def register_concentric(Rg):
     from pyvc.interp import Rewrite
     from pyvc.lemmas import use
+
+    def note_entry(E, fr):
+        E.ghost["c13-entry-context-size"] = len(E.pc)
+
+    def forget_tolerance_tests(E):
+        """WEAKENING of the proof context (always sound): the outcomes of the np.allclose tests that chose the frustum end (and of any
+        other relative-tolerance test made since entry) are dropped from the hypotheses once the choice has been turned into plain
+        equations.  They are disjunctions of |.| comparisons over products of coordinates: no later step needs them, and the
+        nonlinear solver is slowed down by them a hundredfold."""
+        n0 = E.ghost.get("c13-entry-context-size", len(E.pc))
+        E.pc[:] = [h for k, h in enumerate(E.pc) if k < n0 or not _has_numeral(h, RTOL)]
 
     def h_is_hh(E, v, o):
         return R(v["h"]) == R(v["hh"])
@@ -396,11 +458,22 @@ def register_concentric(Rg):
             tau = z3.Real(fresh_name("tau"))
             E.assume(_tau_def(r1, r2, hh, tau))
             E.ghost["c13-tau"] = tau
+            # the band precondition `1 < tau <= 1 + eps excluded` is stated on the objects (squared centre distance); here it is
+            # turned into a fact about the ghost tau, once, so that every later step sees a linear fact
+            den = hh * hh + (r2 - r1) * (r2 - r1)
+            scale(E, hh * hh, _dot(u, u), 1)
+            use(E, "product-of-positives", hh, hh)
+            use(E, "strictly-larger-factor-strictly-larger-product", z3.RealVal(1), tau, den)
+            use(E, "larger-factor-larger-product", tau, 1 + EPS, den)
+            E.prove("VolSphereFrustumConeIntersection.calc_concentric_intersect_volume/step/crossing-parameter-is-outside-the-librarys-t-band",
+                    z3.Or(tau <= 1, tau > 1 + EPS), "annotation")
         return E.ghost["c13-tau"]
 
     # ---- annotations in the carrier
     def up_is_u(E, v, o):
         c, u, hh, r1, r2 = G_(E, o)
+        tau_of(E, o)
+        forget_tolerance_tests(E)
         for k, x in enumerate(v["up"].items):  # up_k = (hh u_k) / |c2 - c1|, and |c2 - c1| = hh (annotation after h)
             q = R(x)
             if z3.is_app(q) and q.decl().kind() == z3.Z3_OP_DIV:
@@ -517,6 +590,15 @@ def register_concentric(Rg):
         at2 = z3.And(rs == r2, *[a == b for a, b in zip(cs, c2)])
         return z3.And(z3.Or(at1, at2), r1 > 0, r2 > 0, dist2(f.fields["c1"], f.fields["c2"]) > 0)
 
+    def bands_pre(E, v, o):
+        """the library's own tolerance bands (see `outside_tolerance_bands`), stated on radii and the squared centre distance only"""
+        s, f = v["sphere"], v["frustum_cone"]
+        cs, rs = [R(x) for x in s.fields["center"].items], R(s.fields["radius"])
+        c1 = [R(x) for x in f.fields["c1"].items]
+        r1, r2 = R(f.fields["r1"]), R(f.fields["r2"])
+        at1 = z3.And(rs == r1, *[a == b for a, b in zip(cs, c1)])
+        return outside_tolerance_bands(rs, r1 + r2 - rs, dist2(f.fields["c1"], f.fields["c2"]), at_c1=at1)
+
     def concentric_post(E, v, o):
         """stated on the OBJECTS (usable at call sites): the sphere's radius is one of the end radii, the other end's radius is
         r1 + r2 - rs, the height is the distance of the end centres (the very root np.linalg.norm produced)"""
@@ -529,10 +611,12 @@ def register_concentric(Rg):
     Rg.add(f"{VO}:VolSphereFrustumConeIntersection.calc_concentric_intersect_volume", prop="C13",
            variants={"sphere-at-c1-end/widening": _concentric_setup("c1", False), "sphere-at-c2-end/widening": _concentric_setup("c2", False),
                      "sphere-at-c1-end/taper": _concentric_setup("c1", True), "sphere-at-c2-end/taper": _concentric_setup("c2", True)},
-           requires=[("sphere-shares-centre-and-radius-with-one-end-of-the-frustum", concentric_pre)],
+           requires=[("sphere-shares-centre-and-radius-with-one-end-of-the-frustum", concentric_pre),
+                     ("radii-and-height-outside-the-librarys-own-tolerance-bands", bands_pre)],
            returns="real",
            ensures=[("equals-integral-of-the-smaller-profile", concentric_post)],
-           options=dict(exact_tolerances=True, globals_override={"eps": 0},
+           lemmas=[note_entry],
+           options=dict(
                         hints={"post/equals-integral-of-the-smaller-profile": post_hint},
                         asserts_after={"h": [("height-is-the-centre-distance", h_is_hh)],
                                        "up": [("axis-direction-is-the-unit-axis", up_is_u)],
